@@ -506,11 +506,22 @@ func (h *harness) genDML(rt *rapid.T, t *table, o genOpts) *stmt {
 			s.cols = append(s.cols, c.id)
 		}
 		if len(s.cols) == 0 {
+			// the column list is never empty: a table whose only column left is the AUTO_INCREMENT key
+			// (everything else was dropped) gets an explicit key value
 			for i := range t.cols {
 				if !t.cols[i].autoInc {
 					s.cols = append(s.cols, t.cols[i].id)
 					break
 				}
+			}
+			if len(s.cols) == 0 {
+				for _, p := range t.pk {
+					s.cols = append(s.cols, p)
+				}
+				omitAuto = false
+			}
+			if len(s.cols) == 0 {
+				return nil
 			}
 		}
 		if chance(rt, "shuffleCols", 20) {
